@@ -1,4 +1,4 @@
-import Xp.Proofs.C20Init
+import Xp.Proofs.C20Ex
 import Xp.Gen.C20Init
 /-
 C20 property theorems: initialisation is idempotent and never duplicates or
@@ -190,18 +190,27 @@ theorem completed_steps_stay_done (g : Generator) (n : Nat) (a b : Step) (h : ok
     ∀ x ∈ reach sem plan k (b.prog g n) s, StepDone a x :=
   done_stable g n a b h plan k s hd
 
+/-- The hypotheses of idempotence are themselves stable: they hold at every instant of every
+(aborted) initialisation run of a cluster that satisfies them – a crash in the middle of the package
+installer never leaves a store in which the requested images collide or a source is installed twice. -/
+theorem hypotheses_survive_any_abort (g : Generator) (cfg : Cfg) (plan : Plan) (n : Nat) (s : Store) (hyp : InitHyp cfg s) :
+    ∀ x ∈ reach sem plan 0 (initProg g cfg n) s, InitHyp cfg x :=
+  initHyp_reach g cfg plan 0 n 0 s hyp
+
 /-- Crash, then re-run: let a run be aborted anywhere (any outcome at any API call: error, conflict,
 crash before or after the call took effect) and let a fault-free run from the store it left behind
 complete. Then that run reaches the same post-condition as an undisturbed initialisation – every
 step's `StepDone` – which is a fixpoint of the initialisation; existing TLS material of the original
 cluster is still in place, and defaults / foreign fields are untouched.
-(The package hypothesis of `InitHyp` is required of the store at restart.) -/
+(That the re-run completes whenever the undisturbed run would is checked by monitor only.) -/
 theorem crash_then_rerun (g : Generator) (cfg : Cfg) (s : Store) (plan : Plan) (n m m' d : Nat) (t : Store)
-    (hyp : InitHyp cfg (run sem plan 0 (initProg g cfg n) s).1)
+    (hyp : InitHyp cfg s)
     (h : run sem Plan.allOk 0 (initProg g cfg m) (run sem plan 0 (initProg g cfg n) s).1 = (t, some (Res.ok, m', d))) :
     (∀ a ∈ initSteps cfg, StepDone a t) ∧
     (∀ k, run sem Plan.allOk 0 (initProg g cfg k) t = (t, some (Res.ok, k, d))) ∧
     KeptFrom (caNames (initSteps cfg)) s t ∧ Untouched s t := by
+  have hyp' : InitHyp cfg (run sem plan 0 (initProg g cfg n) s).1 :=
+    initHyp_reach g cfg plan 0 n 0 s hyp _ (run_mem_reach sem plan 0 _ s)
   have hmem : t ∈ history g (initSteps cfg) [(plan, n), (Plan.allOk, m)] s := by
     simp only [history, List.mem_append, List.mem_singleton]
     right; left
@@ -213,8 +222,8 @@ theorem crash_then_rerun (g : Generator) (cfg : Cfg) (s : Store) (plan : Plan) (
   have h' : evalOk (initProg g cfg m) (run sem plan 0 (initProg g cfg n) s).1 = (t, (Res.ok, m', d)) := by
     simp only [Prod.mk.injEq, Option.some.injEq] at h0
     exact Prod.ext h0.1 h0.2
-  obtain ⟨hd, _⟩ := init_done g cfg _ t m m' d hyp h'
-  exact ⟨hd, fun k => (init_idempotent g cfg _ t m m' d hyp h k).1,
+  obtain ⟨hd, _⟩ := init_done g cfg _ t m m' d hyp' h'
+  exact ⟨hd, fun k => (init_idempotent g cfg _ t m m' d hyp' h k).1,
     kept_history g (initSteps cfg) _ s t hmem, untouched_history g (initSteps cfg) _ s t hmem⟩
 
 /-! ### the CA bundle -/
@@ -288,29 +297,9 @@ example : stdGen.Sound := by
       simp at h; obtain ⟨rfl, rfl⟩ := h; exact ⟨rfl, hk⟩
     · cases h
 
-/-- a small installation: webhooks on, one CRD with webhook conversion, two webhook configurations, a
-host-qualified provider that is already installed under a custom name, a partially initialised
-cluster (CA present, server certificate missing) -/
-def exCfg : Cfg :=
-  { ns := "crossplane-system", sa := "crossplane", webhook := true, svcName := "crossplane-webhooks",
-    svcNs := "crossplane-system", svcPort := 9443, ca := "crossplane-root-ca", server := "crossplane-tls-server",
-    client := "crossplane-tls-client", ess := "ess-server",
-    p := [⟨"xpkg.upbound.io/crossplane/provider-aws:v1.1.0", some ⟨"xpkg.upbound.io", "crossplane/provider-aws", "v1.1.0", false,
-      "xpkg.upbound.io/crossplane/provider-aws:v1.1.0", "xpkg.upbound.io/crossplane/provider-aws"⟩⟩],
-    c := [], f := [],
-    crdDir := ⟨false, [.crd ⟨"locks.pkg.crossplane.io", 2, [("v1beta1", true), ("v1alpha1", false)], true⟩]⟩,
-    whcDir := ⟨false, [.whc ⟨.validating, "validating-webhook-configuration", ["a.crossplane.io"]⟩,
-                       .whc ⟨.mutating, "mutating-webhook-configuration", ["b.crossplane.io"]⟩]⟩ }
-
-def exStore : Store :=
-  { secrets := [⟨"crossplane-root-ca", .cert ⟨1, 1, ["crossplane-root-ca"], true⟩, .key 1, .empty, 0, 0⟩],
-    pkgs := [⟨.provider, "my-aws", "xpkg.upbound.io/crossplane/provider-aws:v1.0.0",
-      some ⟨"xpkg.upbound.io", "crossplane/provider-aws", "v1.0.0", false,
-        "xpkg.upbound.io/crossplane/provider-aws:v1.0.0", "xpkg.upbound.io/crossplane/provider-aws"⟩, 3⟩],
-    crds := [⟨"locks.pkg.crossplane.io", 1, [("v1alpha1", true)], false, .empty, ["v1alpha1"], 7⟩],
-    whcs := [], crs := [⟨"locks.pkg.crossplane.io", "lock", 0⟩], lock := some 2, sc := none, drc := none }
-
-/-- the hypotheses of `init_idempotent` / `ca_bundle_injected` hold for it and the run completes -/
+/-- `exCfg` / `exStore` (Proofs/C20Ex.lean): webhooks on, one CRD with webhook conversion, two webhook
+configurations, a host-qualified provider already installed under a custom name, a partially initialised
+cluster. The hypotheses of `init_idempotent` / `ca_bundle_injected` hold for it and the run completes. -/
 example : (run sem Plan.allOk 0 (initProg stdGen exCfg 100) exStore).2.map (·.1) = some Res.ok := by decide
 
 example : InitHyp exCfg exStore := by
